@@ -48,7 +48,7 @@ def mk_dim(U, d3):
 
 def target_forms(U, s3, d3, r):
     """every accepted form of conversion target for system s3 (dimension d3)"""
-    ustr = si.unit_string(s3, d3, style=r.choice([0, 1, 2, 3]))
+    ustr = si.unit_string(s3, d3, style=r.choice([0, 1, 2, 3, 0, 1, 2, 3, 4, 5]))
     forms = {
         "UnitsSystem": mk_sys(U, s3),
         "dict": si.sys_dict(s3),
